@@ -11,7 +11,7 @@ from .pair import Pair
 from .sched import Scheduler, trace_provider_mdib, trace_provider_txid
 from .tlc import SPEC_DIR, MachineryError, json_lines, run_tlc
 
-HANDLES = ['vmd', 'ch', 'm1', 'm2', 'pc', 'dA']
+HANDLES = ['vmd', 'ch', 'm1', 'm2', 'pc', 'dA', 'rt']
 CTX = ['c1', 'c2']
 
 
@@ -58,6 +58,13 @@ class Lab:
             def fn():
                 self.tok_n += 1
                 with m.metric_state_transaction() as mgr:
+                    apply_tok(mgr.get_state(conc(a)), self.tok_n)
+            return fn
+
+        def w_rt(a):
+            def fn():
+                self.tok_n += 1
+                with m.rt_sample_state_transaction() as mgr:
                     apply_tok(mgr.get_state(conc(a)), self.tok_n)
             return fn
 
@@ -210,6 +217,7 @@ class Lab:
             'O_unknown_a': o_unknown('a'), 'O_unknown_b': o_unknown('b'), 'O_unknown_c': o_unknown('c'),
             'O_setstring_a': o_setstring('va'), 'O_setstring_b': o_setstring('vb'),
             'P_periodic': p_periodic(),
+            'W_rt': w_rt('rt'), 'R_state_rt': r_state(['rt'], 'GetMdState[req]'),
             'R_descr_dA': r_descr_of(['dA']), 'W_add_dA': w_add('dA', 'vmd'), 'W_del_dA': w_del('dA'),
         }
         return table[name]
